@@ -34,12 +34,18 @@ void harness_alloc_failure(void)
 #if STEP == 2 || STEP == 3 || STEP == 4
 	cJSON *fetch = mkreq("fetch", 2, fetch_params("f"));
 #endif
+#if STEP == 9
+	cJSON *fetch1 = mkreq("fetch", 2, fetch_params("f1")), *fetch2 = mkreq("fetch", 3, fetch_params("f2"));   /* fill the initial subscription table (2 slots) */
+#endif
 	scn_build_end();
 #if STEP != 0
 	__CPROVER_assume(dispatch(&A, add) == 0);
 #endif
 #if STEP == 2 || STEP == 3 || STEP == 4
 	__CPROVER_assume(dispatch(&B, fetch) == 0);
+#endif
+#if STEP == 9
+	__CPROVER_assume(dispatch(&B, fetch1) == 0 && dispatch(&B, fetch2) == 0);
 #endif
 	/* the request under test */
 	scn_build_begin();
@@ -61,6 +67,8 @@ void harness_alloc_failure(void)
 	cJSON *cp = cJSON_CreateObject(); cJSON_AddItemToObject(cp, "name", cJSON_CreateString("n")); cJSON *req = mkreq("config", 7, cp); struct peer *actor = &B;
 #elif STEP == 8
 	cJSON *req = mkreq("info", 7, 0); struct peer *actor = &B;
+#elif STEP == 9
+	cJSON *req = mkreq("fetch", 7, fetch_params("f3")); struct peer *actor = &B;      /* third subscription: the element's table has to grow */
 #endif
 	scn_build_end();
 	reset_log();
@@ -94,6 +102,18 @@ void harness_alloc_failure(void)
 #elif STEP == 2
 	if (resp && resp->is_error) CHECK(e && e->value && e->value->valueint == 5, "C15.change_answered_with_error_changed_nothing");
 	if (e) CHECK(e->value != 0, "C15.state_keeps_a_value");
+#endif
+#if STEP != 0 && STEP != 3
+	/* the daemon keeps serving: a fault-free change of the element by its owner is carried out and reaches whoever is subscribed */
+	{
+		scn_build_begin(); cJSON *again = mkreq("change", 8, path_params("a", 6)); scn_build_end();
+		reset_log();
+		int r2 = dispatch(&A, again);
+		struct sent *a2 = last_of(&A, K_RESPONSE);
+		CHECK(r2 == 0 && a2 && a2->has_result && a2->id_int == 8, "C15.daemon_keeps_serving_after_the_failure");
+		e = element_table_get("a");
+		CHECK(e && e->value && e->value->valueint == 6, "C15.later_change_takes_effect");
+	}
 #endif
 	/* everything goes away with the peers */
 	free_peer_resources(&B);
